@@ -74,7 +74,7 @@ class Excel:
         handle_cell(first, self._titles)
         handle_cell(second, self._titles)
 
-        return Cell(base.title, base.column + (second.column - first.column), base.row + (second.row - first.row) if first.row is not None or second.row is not None else None)
+        return Cell(base.title, base.column + (second.column - first.column), base.row + (second.row - first.row) if base.row is not None and first.row is not None and second.row is not None else None)
 
     def _get_vertical_range(self, first: Cell, second: Cell) -> list:
         start_row = first.row
